@@ -41,10 +41,6 @@ Definition mk_nested (r : record) (ks : list tree) : tree := T None [] r ks.
 Definition of_obs {A B} (f : A -> res B) (o : option A) : res B :=
   match o with Some a => f a | None => Raise OtherError end.
 
-(* canonical forms of model outputs *)
-Definition res_map {A B} (f : A -> B) (r : res A) : res B :=
-  match r with Ret a => Ret (f a) | Raise e => Raise e end.
-
 Definition res_eqb {A} (e : A -> A -> bool) (a b : res A) : bool :=
   match a, b with
   | Ret x, Ret y => e x y
